@@ -51,6 +51,7 @@ PROPERTIES = {
         "level": "fault_enumeration",
         "wall_cap": {"quick": 150.0, "thorough": 3000.0},
         "rule": "for each pool (query, backend, wire, output-directory state in {empty, holds another query's package, "
+                "holds a package unpacked without mode bits, emptied after a kept executor wrote into it, "
                 "shared with a kept executor of another backend}) the write phase is run once fault-free counting its "
                 "file-system calls (open/write/close/chmod), then once per call index with that call raising OSError, followed "
                 "by a fault-free retry with the same executor into the same directory; whenever translation returns, the package must be "
@@ -89,7 +90,7 @@ def _c02_space(tier):
         for name, steps in pools.QUERIES[b]:
             if "_bad_" in name:
                 continue
-            for stale in (False, True, "kept_cross"):
+            for stale in (False, True, "kept_cross", "unpacked", "kept_cleaned"):
                 wires = ("ast", "qastle") if tier == "thorough" else ("ast",)
                 for wire in wires:
                     items.append((b, name, stale, wire))
@@ -146,7 +147,9 @@ def make_case(prop, tier, seed, i):
         return {"engine": NAME, "prop": prop, "seed": seed, "run": i, "backend": b, "query": q, "stale": stale,
                 "stale_query": {"name": other[0], "backend": ob, "steps": other[1], "md": [], "md_names": [], "wire": "ast"},
                 "errno": ["ENOSPC", "EIO", "EACCES"][i % 3],
-                "select": "all", "sel_seed": rng.randrange(1 << 30), "faults": None}
+                # the fault point is enumerated completely for the two basic directory states (and for all of them in the
+                # thorough tier); the other states get every open/close/chmod and the first/last/4 sampled writes per file
+                "select": "all" if (tier == "thorough" or stale in (False, True)) else "sampled", "sel_seed": rng.randrange(1 << 30), "faults": None}
     # ---- C07: swarm configuration first, then the history
     nb = weighted(rng, [(1, 5), (2, 3), (3, 2)])
     backends = rng.sample(BACKENDS, nb)
@@ -154,10 +157,11 @@ def make_case(prop, tier, seed, i):
         "backends": backends,
         "p_reuse": rng.choice([0.0, 0.3, 0.7, 1.0]),
         "p_fault": rng.choice([0.0, 0.0, 0.15, 0.35]),
-        "fault_kinds": rng.sample(["io", "abort"], rng.choice([1, 2])),
+        "fault_kinds": rng.sample(["io", "abort", "tmpl_missing"], rng.choice([1, 2, 3])),
         "p_ld": rng.choice([0.0, 0.0, 0.2, 0.6]),
         "md_rate": rng.choice([0.2, 0.5, 0.7]),
         "p_mismatch": rng.choice([0.0, 0.05]),
+        "p_share": rng.choice([0.0, 0.0, 0.5, 1.0]),
         "hot": None,
     }
     # bias: a 'hot' sub-pool of few queries so that polluter and probe touch the same methods
@@ -193,11 +197,14 @@ def make_case(prop, tier, seed, i):
         if cfg["hot"] and qb in cfg["hot"] and rng.random() < 0.8:
             name = rng.choice(cfg["hot"][qb])
         q = _query(rng, qb, name=name, md_rate=cfg["md_rate"], ld=ld)
-        op = {"op": "translate", "slot": slot, "backend": eb, "query": q, "ld": ld, "fault": None}
+        op = {"op": "translate", "slot": slot, "backend": eb, "query": q, "ld": ld, "fault": None,
+              "share": rng.random() < cfg["p_share"]}
         if not last and rng.random() < cfg["p_fault"]:
             kind = rng.choice(cfg["fault_kinds"])
             if kind == "io":
                 op["fault"] = {"kind": "io", "frac": rng.random(), "errno": rng.choice(["ENOSPC", "EIO", "EACCES"])}
+            elif kind == "tmpl_missing":
+                op["fault"] = {"kind": "tmpl_missing"}
             else:
                 op["fault"] = {"kind": "abort", "frac": rng.random(),
                                "exc": weighted(rng, [("RecursionError", 6), ("MemoryError", 3), ("KeyboardInterrupt", 1)])}
@@ -244,6 +251,7 @@ def _history_child(case, refs):
         stats[k] = stats.get(k, 0) + n
 
     slots = {}
+    streams = {}  # ObjectStream objects of this process (queries built from a common base share AST nodes)
     n_translated = 0
     prev_failed = prev_fault = prev_other_backend_ok = False
     try:
@@ -269,8 +277,18 @@ def _history_child(case, refs):
                     io_plan = xlate.IOPlan(d, k=int(f["frac"] * ncalls) if ncalls else 0, err=f["errno"])
                 elif f and f["kind"] == "abort":
                     ab = xlate.AbortPlan(n=int(f["frac"] * max(1, ref["lines"])), exc=f["exc"])
-                got = xlate.translate(exe, q, d, ld=op["ld"], io_plan=io_plan, abort_plan=ab)
+                tm = xlate.TemplateDirMissing() if f and f["kind"] == "tmpl_missing" else None
+                n_streams = len(streams)
+                got = xlate.translate(exe, q, d, ld=op["ld"], io_plan=io_plan, abort_plan=ab, extra_seam=tm,
+                                      stream_cache=streams if op.get("share") else None)
+                if op.get("share") and q["wire"] == "ast" and n_streams and len(streams) == n_streams:
+                    bump("reach:same_query_object_translated_again")
+                elif op.get("share") and q["wire"] == "ast" and n_streams:
+                    bump("reach:query_built_on_shared_base")
                 fired = None
+                if tm is not None and tm.fired:
+                    fired = "tmpl_missing"
+                    bump("fault:template_dir_not_found")
                 if io_plan is not None and io_plan.fired:
                     fired = "io:" + io_plan.fired[0]
                     bump("fault:io_" + io_plan.fired[0])
@@ -334,9 +352,19 @@ def _c02_child(case, k, ref):
             xlate.translate(exe, case["query"], d)
             e0 = xlate.executor_class(case["stale_query"]["backend"])()
             xlate.translate(e0, case["stale_query"], d)
+        elif case["stale"] == "kept_cleaned":
+            # a kept executor translated into D before; D was emptied (rm -rf; mkdir) and is used again
+            exe = xlate.executor_class(case["backend"])()
+            xlate.translate(exe, case["query"], d)
+            for fn in os.listdir(d):
+                os.remove(os.path.join(d, fn))
         elif case["stale"]:
             e0 = xlate.executor_class(case["backend"])()
             xlate.translate(e0, case["stale_query"], d)
+            if case["stale"] == "unpacked":
+                # the earlier package was unpacked from an archive that does not keep mode bits
+                for fn in os.listdir(d):
+                    os.chmod(os.path.join(d, fn), 0o644)
         if exe is None:
             exe = xlate.executor_class(case["backend"])()
         plan = xlate.IOPlan(d, k=k, err=case["errno"])
@@ -506,6 +534,10 @@ def shrink(case, fails):
             o = copy.deepcopy(op)
             o["slot"] = None
             yield o
+        if op.get("share"):
+            o = copy.deepcopy(op)
+            o["share"] = False
+            yield o
 
     for _ in range(4):
         new = greedy_replace(ops, simpler, lambda o: fails(with_ops(o)))
@@ -524,7 +556,7 @@ def signature(case, v):
         if op["op"] == "translate":
             f = op.get("fault")
             shape.append(f"{op['query']['name']}[{','.join(sorted(op['query']['md_names']))}]"
-                         f"{'@ld' if op['ld'] else ''}{'@slot' if op['slot'] is not None else ''}"
+                         f"{'@ld' if op['ld'] else ''}{'@slot' if op['slot'] is not None else ''}{'@shared' if op.get('share') else ''}"
                          f"{'!' + f['kind'] if f else ''}")
         else:
             shape.append(op["op"] + ":" + str(op.get("backend", "")))
@@ -540,7 +572,7 @@ def describe(case):
         if op["op"] == "translate":
             out.append({"translate": op["query"]["name"], "md": op["query"]["md_names"], "wire": op["query"]["wire"],
                         "executor": f"slot{op['slot']}" if op["slot"] is not None else "fresh:" + op["backend"],
-                        "ld": op["ld"], "fault": op.get("fault")})
+                        "ld": op["ld"], "fault": op.get("fault"), "built_on_shared_streams": bool(op.get("share"))})
         else:
             out.append({op["op"]: op.get("slot"), "backend": op.get("backend")})
     return {"cfg": case["cfg"], "ops": out}
@@ -548,8 +580,9 @@ def describe(case):
 
 def evidence(prop, agg):
     if prop == "C02":
-        return {"exhaustive": True,
+        return {"exhaustive": False,
                 "explanation": "the fault point is enumerated completely (every open/write/close/chmod call of the write phase) "
-                               "for each pool (query, backend, dir state[, wire]); the outer set is the finite pool, so the "
-                               "enumeration is complete over pool x fault point, not over all queries"}
+                               "for each pool (query, backend, wire) in the directory states 'empty' and 'holds another package' "
+                               "(thorough: in all five states); in the quick tier the other three states get every "
+                               "open/close/chmod and first/last/4 sampled writes per file. The outer set is the finite pool."}
     return {}
